@@ -142,9 +142,12 @@ NewTermText == << [r |-> FALSE, s |-> "renamed"] >>
 \* t: the tracking map (the keys stop being tracked; an absorbed duplicate loses its entry)
 EquateT(S, t, E, KD, CN) ==
   LET names == [a \in {S.c[k].alias : k \in DOMAIN E} |-> S.c[E[UidOf(S.c, a)]].alias]
+      \* the survivor's term is set like SetTerm does: a term that really changes discards the survivor's manual word forms
+      \* (the removed constituent's own manual forms are not carried over)
+      NewTerm(u, q) == IF q = S.c[u].term THEN S.c[u] ELSE WithoutForms([S.c[u] EXCEPT !.term = q])
       c0 == [u \in DOMAIN S.c |-> IF \E k \in KD : E[k] = u
-                                   THEN LET k == CHOOSE x \in KD : E[x] = u IN [S.c[u] EXCEPT !.term = S.c[k].term, !.text = S.c[k].text]
-                                   ELSE IF \E k \in CN : E[k] = u THEN [S.c[u] EXCEPT !.term = NewTermText]
+                                   THEN LET k == CHOOSE x \in KD : E[x] = u IN [NewTerm(u, S.c[k].term) EXCEPT !.text = S.c[k].text]
+                                   ELSE IF \E k \in CN : E[k] = u THEN NewTerm(u, NewTermText)
                                    ELSE S.c[u]]
       c1 == [u \in DOMAIN S.c \ DOMAIN E |-> RenRec(c0[u], names)]
       ord1 == SelectSeq(S.ord, LAMBDA u : u \notin DOMAIN E)
